@@ -4,6 +4,50 @@ from harness import jsonify
 from harness.envs.base import EnvAdapter
 
 DEFAULT_REWARDS = (1.0, 0.0, 0.0)  # documented defaults: safe square, mine, invalid action
+INJ_PROPS = ["C01", "C03", "C04", "C05", "C07", "C09", "C12"]
+
+
+def _injected_generator(cfg):
+    """INJ: every running state of the TLC model with cfg["mines"] mines (every placement of the mines, every set of
+    revealed safe squares short of the solved board) as a start state, handed out by a table-driven generator (state
+    number key[1]); every other field is the one the library's own generator produced."""
+    import jax.numpy as jnp
+
+    from harness import inject
+    from jumanji.environments.logic.minesweeper.generator import Generator, UniformSamplingGenerator
+
+    states, _ = inject.dump_states(cfg["inject"][0], cfg["inject"][1], var=None, limit=None)
+    rows, cols, m = cfg["ctor"]["num_rows"], cfg["ctor"]["num_cols"], cfg["ctor"]["num_mines"]
+    seen = {}
+    for st in states:
+        s = st["s"]
+        if st["post"] == 0 and len(s["flat_mine_locations"]) == m:
+            seen.setdefault(repr((s["board"], s["flat_mine_locations"])), s)
+    tab = inject.thin([seen[k] for k in sorted(seen)], cfg.get("limit"))
+    if not tab:
+        raise inject.Unavailable(f"no running state with {m} mines in {cfg['inject']}")
+    cfg["episodes"] = len(tab)
+    assert (len(tab[0]["board"]), len(tab[0]["board"][0])) == (rows, cols)
+    boards = np.array([t["board"] for t in tab])
+    mines = np.array([t["flat_mine_locations"] for t in tab]).reshape((len(tab), m))
+    steps = np.array([t["step_count"] for t in tab])
+
+    class InjectedGenerator(Generator):
+        def __init__(self):
+            super().__init__(num_rows=rows, num_cols=cols, num_mines=m)
+
+        def generate_flat_mine_locations(self, key):
+            return jnp.asarray(mines)[key[1] % mines.shape[0]]
+
+        def __call__(self, key):
+            j = key[1] % boards.shape[0]
+            tpl = UniformSamplingGenerator(num_rows=rows, num_cols=cols, num_mines=m)(key)
+            return inject.state_like(
+                tpl, board=jnp.asarray(boards)[j].astype(tpl.board.dtype),
+                flat_mine_locations=jnp.asarray(mines)[j].astype(tpl.flat_mine_locations.dtype),
+                step_count=jnp.asarray(steps)[j].astype(tpl.step_count.dtype))
+
+    return InjectedGenerator()
 
 
 class Adapter(EnvAdapter):
@@ -35,6 +79,10 @@ class Adapter(EnvAdapter):
                 # the three values given as Python ints (whole numbers): the reward must still be a float32 scalar
                 c("r3c5m3_rwint", 3, 5, 3, rewards=(3, -2, -1), episodes=4, max_steps=16,
                   policies=["safe", "safe_then_mine", "safe_then_invalid", "masked"]),
+            ] + [
+                # INJ: every running state of the 2x3 TLC model (all placements, all revealed sets), every click probed
+                c(f"inj2x3_m{m}", 2, 3, m, inject=("MC_Minesweeper", "MC_Minesweeper_quick_2x3.cfg"), episodes=0, max_steps=1,
+                  post_terminal=0, policies=["masked"], props=INJ_PROPS) for m in (1, 2, 4)
             ]
         return [
             c("r10c10m10", 10, 10, 10, default_ctor=True, episodes=16, max_steps=95, probe_every=2, probe_cap=100,
@@ -64,6 +112,12 @@ class Adapter(EnvAdapter):
             c("r7c2m3", 7, 2, 3, episodes=20, max_steps=14, policies=mixed + ["safe_then_invalid"]),
             c("r12c20m30", 12, 20, 30, episodes=3, max_steps=215, probe_every=12, probe_cap=48,
               policies=["safe", "safe_then_invalid", "safe_then_mine"]),
+        ] + [
+            c(f"inj2x3_m{m}", 2, 3, m, inject=("MC_Minesweeper", "MC_Minesweeper_quick_2x3.cfg"), episodes=0, max_steps=2,
+              post_terminal=0, policies=["masked"], props=INJ_PROPS) for m in (0, 1, 2, 3, 4, 5)
+        ] + [
+            c(f"inj3x3_m{m}", 3, 3, m, inject=("MC_Minesweeper", "MC_Minesweeper_thorough.cfg"), episodes=0, max_steps=1,
+              post_terminal=0, policies=["masked"], limit=2500, props=INJ_PROPS) for m in (1, 2, 3)
         ]
 
     def make(self, cfg):
@@ -73,12 +127,19 @@ class Adapter(EnvAdapter):
 
         if cfg.get("default_ctor"):
             return Minesweeper()  # the documented defaults: 10x10, 10 mines, default reward and done functions
-        kw = dict(generator=UniformSamplingGenerator(**cfg["ctor"]))
+        kw = dict(generator=_injected_generator(cfg) if "inject" in cfg else UniformSamplingGenerator(**cfg["ctor"]))
         if cfg.get("rewards"):
             rs, rm, ri = cfg["rewards"]
             kw["reward_function"] = DefaultRewardFn(
                 revealed_empty_square_reward=rs, revealed_mine_reward=rm, invalid_action_reward=ri)
         return Minesweeper(**kw)
+
+    def episode_key(self, cfg, ep, seed):
+        if "inject" not in cfg:
+            return None
+        from harness import inject
+
+        return inject.ep_key(ep)
 
     def cfg_record(self, cfg, env):
         rec = dict(cfg["ctor"])  # what the harness requested
